@@ -108,6 +108,10 @@ fn base_models() -> Vec<(Model, Vec<u8>)> {
         (Model { trans: vec![(-2_422_054_408, 2), (954_032_400, 3), (972_781_200, 2)], types: vec![ty(3208, false, "LMT"), ty(3600, false, "CET"), ty(7200, true, "CEST")], leaps: 0, rule: cet_rule.clone() }, vec![2, 3]),
         (Model { trans: vec![(-1_000_000_000, 2), (0, 3), (1_000_000_000, 2), (2_000_000_000, 1)], types: vec![ty(-17762, false, "LMT"), ty(-18000, false, "EST"), ty(-14400, true, "EDT")], leaps: 0, rule: Rule::None }, vec![1, 2, 3]),
         (Model { trans: vec![(-(1i64 << 59), 2), (-4_260_211_372, 3), (1_679_792_400, 4)], types: vec![ty(0, false, "-00"), ty(-12416, false, "LMT"), ty(-10800, false, "-03"), ty(-7200, true, "-02")], leaps: 0, rule: nuuk }, vec![3]),
+        // exactly one and exactly two transitions (every per-element / pairwise validation loop has its boundary case), with and without a footer
+        (Model { trans: vec![(-1_000_000_000, 2)], types: vec![ty(-17762, false, "LMT"), ty(-18000, false, "EST")], leaps: 0, rule: Rule::None }, vec![1, 2]),
+        (Model { trans: vec![(86_400, 2)], types: vec![ty(3208, false, "LMT"), ty(3600, false, "CET")], leaps: 0, rule: Rule::Fixed(ty(3600, false, "CET")) }, vec![2, 3]),
+        (Model { trans: vec![(-1_000_000_000, 2), (1_000_000_000, 1)], types: vec![ty(-17762, false, "LMT"), ty(-18000, false, "EST")], leaps: 0, rule: Rule::None }, vec![1, 2]),
         // abbreviation-only and DST-flag-only transitions, a fixed footer
         (Model { trans: vec![(-1_691_964_000, 2), (-57_722_400, 3), (57_722_400, 4), (2_000_000_000, 2)], types: vec![ty(-75, false, "LMT"), ty(0, false, "GMT"), ty(3600, true, "BST"), ty(3600, false, "BST")], leaps: 0, rule: Rule::Fixed(ty(0, false, "GMT")) }, vec![2]),
     ]
